@@ -13,6 +13,8 @@ fvars == <<phase, delivered, reported, verdict>>
 
 FInit == phase = "idle" /\ delivered = FALSE /\ reported = FALSE /\ verdict = "none"
 
+\* sticky: FALSE (the k-th stdio call fails), TRUE (every call from the k-th on fails), "kind" (every later call of
+\* the same stdio function fails: a full disk, an unreadable medium)
 Inject(k, sticky, short) ==
     /\ phase' = "running" /\ delivered' = FALSE /\ reported' = FALSE /\ verdict' = "none"
 
